@@ -13,7 +13,7 @@ import time
 import z3
 
 from . import spec as S
-from .spec import Opt, BoolV, RealV, SliceV, SeqV, TupV, MapV, StrV, NanV, ObjV, AbsV, SliceSeqV, SortedItemsV, TupSeqV
+from .spec import Opt, BoolV, RealV, SliceV, SeqV, TupV, MapV, StrV, NanV, ObjV, AbsV, SliceSeqV, SortedItemsV, TupSeqV, RowsV
 from .contract import Contract, REGISTRY, for_function
 
 
@@ -107,7 +107,7 @@ def unwrap(v):
 
 def wrap(v):
     """contract-level value back into an engine value."""
-    if isinstance(v, (Opt, BoolV, RealV, SliceV, SeqV, TupV, MapV, StrV, NanV, ObjV, AbsV, SliceSeqV, SortedItemsV, TupSeqV)):
+    if isinstance(v, (Opt, BoolV, RealV, SliceV, SeqV, TupV, MapV, StrV, NanV, ObjV, AbsV, SliceSeqV, SortedItemsV, TupSeqV, RowsV)):
         return v
     if v is None:
         return NONE
@@ -266,6 +266,8 @@ class Exec:
                     raise Unsupported(f"tupseq component {t!r}")
                 comps.append(SliceSeqV.fresh(f"{base}.{i}!{self.nfresh}", n))
             return TupSeqV(n, comps)
+        if ty.startswith("rows:"):
+            return self.fresh_rows(int(ty[5:]), base)
         if ty == "nan":
             return NanV()
         if ty == "str":
@@ -290,7 +292,20 @@ class Exec:
             return o
         raise Unsupported(f"unknown type {ty!r}")
 
+    def fresh_rows(self, arity, base, kind="list"):
+        comps = []
+        for i in range(arity):
+            self.nfresh += 1
+            c = z3.Const(f"{base}.{i}!{self.nfresh}", S.SeqSort)
+            if comps:
+                # all columns have one length: a definitional fact attached to the column's own term
+                self.ctx.defs.append(S.f_len(c) == S.f_len(comps[0]), (c,))
+            comps.append(c)
+        return RowsV(comps, kind)
+
     def havoc_like(self, v, base):
+        if isinstance(v, RowsV):
+            return self.fresh_rows(len(v.comps), base, v.kind)
         if isinstance(v, Opt):
             if v.definite():
                 return I(self.fresh_int(base))
@@ -567,6 +582,8 @@ class Exec:
     def mutating_method(self, base, attr, args, st, node):
         if attr == "append" and isinstance(base, SeqV):
             return SeqV(S.f_append(base.t, S.as_int(self.need_int(args[0], st, node))), base.kind)
+        if attr == "append" and isinstance(base, RowsV) and isinstance(args[0], TupV) and len(args[0].items) == len(base.comps):
+            return RowsV([S.f_append(c, S.as_int(self.need_int(x, st, node))) for c, x in zip(base.comps, args[0].items)], base.kind)
         if attr == "append" and isinstance(base, TupV) and base.kind == "list":
             return TupV(base.items + [args[0]], "list")
         if attr == "reverse" and isinstance(base, SliceSeqV):
@@ -641,10 +658,14 @@ class Exec:
         if isinstance(tgt, ast.Subscript) and isinstance(tgt.value, ast.Name) and tgt.value.id in st.env:
             self.check_unaliased(tgt.value.id, st, node)
         if isinstance(tgt, ast.Name):
+            ty = getattr(self.c.cls, "locals", {}).get(tgt.id)
             if v == ("emptydict",):
-                ty = getattr(self.c.cls, "locals", {}).get(tgt.id)
                 if ty and ty.startswith("map:"):
                     v = MapV.empty(ty[4:])
+            elif ty == "lseq" and isinstance(v, TupV) and v.kind == "list":
+                v = SeqV(self.to_seq(v), "list")  # a list literal of ints that a loop will grow: symbolic int list
+            elif ty and ty.startswith("rows:") and isinstance(v, SeqV) and v.kind == "list" and v.t.eq(S.c_empty):
+                v = RowsV.empty(int(ty[5:]))      # an empty list literal that will hold fixed-arity int tuples
             st.env[tgt.id] = v
         elif isinstance(tgt, (ast.Tuple, ast.List)):
             items = self.unpack(v, len(tgt.elts), st, node)
@@ -843,6 +864,10 @@ class Exec:
             if a.t.eq(b.t):
                 return a
             return self.seq_ite(c, a.t, b.t, a.kind)
+        if isinstance(a, RowsV):
+            if len(a.comps) != len(b.comps):
+                return None
+            return RowsV([x if x.eq(y) else self.seq_ite(c, x, y, a.kind).t for x, y in zip(a.comps, b.comps)], a.kind)
         if isinstance(a, MapV):
             if a.payload != b.payload:
                 return None
@@ -1176,7 +1201,7 @@ class Exec:
             return {"n": S.f_len(v.t), "elem": lambda k, s: I(S.f_at(v.t, k))}
         if isinstance(v, SortedItemsV):
             return {"n": v.n, "elem": lambda k, s: TupV([I(S.f_at(v.keys, k)), v.m.get(S.f_at(v.keys, k))])}
-        if isinstance(v, (SliceSeqV, TupSeqV)):
+        if isinstance(v, (SliceSeqV, TupSeqV, RowsV)):
             return {"n": v.n, "elem": lambda k, s: v.get(k)}
         raise Unsupported(f"iteration over {ast.dump(it)[:80]} line {node.lineno}")
 
@@ -1734,6 +1759,11 @@ class Exec:
                     raise Unsupported(f"symbolic index into heterogeneous tuple line {node.lineno}")
                 res = m
             return res
+        if isinstance(base, RowsV):
+            idx = S.as_int(self.need_int(k, st, node))
+            n = base.n
+            self.oblige(st, "safe", "index", z3.And(-n <= idx, idx < n), node.lineno, note="sequence index in range")
+            return base.get(z3.If(idx < 0, idx + n, idx))
         if isinstance(base, SeqV):
             idx = S.as_int(self.need_int(k, st, node))
             n = S.f_len(base.t)
@@ -2238,6 +2268,8 @@ def type_matches(ty, v):
         return isinstance(v, SliceSeqV)
     if ty.startswith("tupseq:"):
         return isinstance(v, TupSeqV) and len(v.comps) == len(split_types(ty[7:]))
+    if ty.startswith("rows:"):
+        return isinstance(v, RowsV) and len(v.comps) == int(ty[5:])
     if ty == "const":
         return True
     return False
